@@ -257,3 +257,28 @@ class SSplit(object):
 
     def __init__(self, s, sep):
         self.s, self.sep = s, sep
+
+
+# ------------------------------------------------------------------------------ files / yaml
+def _m_open(ctx, args, kwargs):
+    import io
+    ctx.eng.externals_used.add("open(): the file system is not modelled; the content is whatever yaml.load returns")
+    return SExt(io.TextIOWrapper, {"cm": "noop"})
+
+
+def _m_exists(ctx, args, kwargs):
+    return True
+
+
+def _m_yaml_load(ctx, args, kwargs):
+    doc = ctx.ghost.get("yaml_doc")
+    if doc is None:
+        ctx.unsupported("yaml.load without a ghost document")
+    ctx.eng.externals_used.add("yaml.load: returns ANY document of the shape the contract's precondition describes")
+    return doc
+
+
+ModelsMixin.NATIVE_MODEL_TABLE["io.open"] = _m_open
+ModelsMixin.NATIVE_MODEL_TABLE["_io.open"] = _m_open
+ModelsMixin.FUNCTION_MODELS["genericpath.exists"] = _m_exists
+ModelsMixin.FUNCTION_MODELS["yaml.load"] = _m_yaml_load
